@@ -146,6 +146,8 @@ func (c *escapeCallsiteInfoImpl) Resolve(callee *ssa.Function) dataflow.EscapeCa
 			}
 		}
 	}
+	// The globals (and static functions) the callee refers to point at the same leaked objects in every context
+	addGlobalObjectNodes(callee, g)
 	return &escapeContextImpl{g, callee}
 }
 
